@@ -23,6 +23,7 @@ import Mhd.Proofs.FramingRefAgree
 import Mhd.Proofs.FramingTotal
 import Mhd.Proofs.FramingTake
 import Mhd.Proofs.FramingReqHead
+import Mhd.Proofs.FramingReplyBridge
 
 namespace Mhd.C03
 open Mhd.Framing Mhd.Gen.Framing Mhd.Framing.Framer
@@ -475,6 +476,48 @@ theorem flagsWF_reachable [HeadParser] (lvl : Int) (s : St) (hr : Reach lvl {} s
 theorem error_reply_taints [HeadParser] (s : St) (status : Nat) (hwf : FlagsWF s) :
     Tainted (errorReply s status) ∧ (errorReply s status).state ≠ .init :=
   (errorReply_props s status hwf).2
+
+/-- **A reply that announces close ON THE WIRE is the last thing the connection serves.**  In
+    `no_reparse` "reply carries close" is a flag of the reply.  Here it is the bytes: for every
+    response object reachable by any legal sequence of `MHD_add_response_header` /
+    `MHD_del_response_header` / footer / option calls from any constructor (C04's model of response.c)
+    that stays inside C03's assumptions (`PlainResp`: no upgrade, no HTTP/1.0 response flags, known
+    size), queued for the request of framing state `s` (`connOf s` = that connection as the reply
+    builder sees it): the complete reply parses, and **if its head has a Connection field with a
+    `close` token** (C04's grammar-level `announcesClose`) then the framing automaton's reply step
+    leaves the connection tainted, and after **any** further transitions and bytes it is never in
+    `init` again and the handler is never shown another request.  Proof: `Mhd.C04.close_announced_iff`
+    (wire ⇔ MUST_CLOSE in the reply builder) + agreement of the two models of `keepalive_possible`
+    (`ka_bridge`) + `no_reparse` / `no_further_request`. -/
+theorem announced_close_no_further_request [HeadParser] (r0 : Mhd.Resp.Resp) (cs : List Mhd.Resp.Call)
+    (h0 : (∃ size, r0 = Mhd.Resp.Resp.create size) ∨ (∃ f, f.insanity = false ∧ r0 = Mhd.Resp.Resp.createEmpty f) ∨
+      r0 = Mhd.Resp.Resp.createUpgrade)
+    (hl : ∀ c ∈ cs, c.Legal) (hplain : PlainResp (Mhd.Resp.runCalls r0 cs))
+    (lvl : Int) (app : App) (s : St) (status : Nat) (hs : s.state = .startReply) (wf : FlagsWF s)
+    (hresp : s.resp = some (status, (Mhd.Resp.runCalls r0 cs).fa.connClose))
+    (st : Mhd.Reply.CState) (allow : Bool) (code0 : Nat) (q : Mhd.Reply.Queued) (src : Mhd.Reply.BodySrc)
+    (date : Option Mhd.ReplyStr.Bytes) (wb : Nat)
+    (hq : Mhd.Reply.queueResponse (connOf s) st false false allow code0 (Mhd.Resp.runCalls r0 cs) = some q)
+    (hdate : ∀ d, date = some d → Mhd.Http.NoCRLF d) (hsz : (Mhd.Resp.runCalls r0 cs).totalSize < 2 ^ 64)
+    (hsrc : Mhd.Reply.SrcLegal (Mhd.Resp.runCalls r0 cs) wb src) (hwb : 128 ≤ wb)
+    (hcomp : (Mhd.Reply.sendReply (connOf s) (Mhd.Resp.runCalls r0 cs) q src date wb
+      (Mhd.Reply.startPosAfterQueue q (Mhd.Resp.runCalls r0 cs) 0)).complete = true) :
+    ∃ p, Mhd.Http.parseReply (Mhd.Reply.reqOf (connOf s)) (Mhd.Reply.sendReply (connOf s) (Mhd.Resp.runCalls r0 cs) q src date wb
+        (Mhd.Reply.startPosAfterQueue q (Mhd.Resp.runCalls r0 cs) 0)).wire = some p ∧
+      (Mhd.Http.announcesClose p.fields = true →
+        ∃ s1, idleStep lvl app s = some s1 ∧ NoReparse s1 ∧ PastFirst s1 ∧
+          ∀ s', Reach lvl s1 s' → s'.state ≠ .init ∧ countFirst s'.out = countFirst s1.out) :=
+  announced_close_taints r0 cs h0 hl hplain lvl app s status hs wf hresp st allow code0 q src date wb hq hdate hsz hsrc hwb hcomp
+
+/-- Non-vacuity, the call sequence of seed C03_7: add `Connection: close`, add `Connection: Foo`
+    (value `close, Foo`), delete `Foo` — the response object still carries the close flag, is plain,
+    and the calls are legal (kernel evaluation of C04's response model). -/
+example :
+    let cs : List Mhd.Resp.Call := [.add Mhd.Resp.sConnection [99, 108, 111, 115, 101], .add Mhd.Resp.sConnection [70, 111, 111],
+                                    .del Mhd.Resp.sConnection [70, 111, 111]]
+    (Mhd.Resp.runCalls (Mhd.Resp.Resp.create 5) cs).fa.connClose = true ∧
+    (Mhd.Resp.runCalls (Mhd.Resp.Resp.create 5) cs).upgrade = false ∧
+    (Mhd.Resp.runCalls (Mhd.Resp.Resp.create 5) cs).totalSize = 5 := by decide +kernel
 
 /-- For whole runs: whatever was fed before (`segs₁`), if the connection is then tainted and not
     in `init`, no continuation `segs₂` of the stream brings it back to `init` or shows the handler a new request. -/
